@@ -33,19 +33,59 @@ import (
 	"github.com/pdok/texel/tms20"
 )
 
+// forceOutsideGrid (real-binary cross-check only): a polygon partly outside the grid
+// WITHOUT the ignore flag; the library panics, so the tool must exit non-zero.
+func forceOutsideGrid(w *twork, seed uint64) {
+	r := simrt.NewRNG(seed, "toolsim-outside")
+	t := loadTMS(w.TMS)
+	g := gridOf(t)
+	for ti := range w.Source.Tables {
+		tb := &w.Source.Tables[ti]
+		if tb.GeomType != gpkgh.TPolygon || !tb.Spatial {
+			continue
+		}
+		w.IgnoreOut = false
+		var row gpkgh.Row
+		for _, col := range tb.Columns {
+			if col.Name == tb.GeomCol {
+				continue
+			}
+			switch {
+			case col.PK:
+				row.Vals = append(row.Vals, gpkgh.IntVal(9000000))
+			case strings.HasPrefix(col.Type, "TEXT"):
+				row.Vals = append(row.Vals, gpkgh.TextVal("outside"))
+			case col.Type == "REAL" || col.Type == "DOUBLE":
+				row.Vals = append(row.Vals, gpkgh.FloatVal(1))
+			default:
+				row.Vals = append(row.Vals, gpkgh.IntVal(1))
+			}
+		}
+		row.Geom = &gpkgh.G{T: gpkgh.TPolygon, L: genPolygon(r, t, g, w.IDs, true)}
+		tb.Rows = append(tb.Rows, row)
+		w.ExpectFailure = true
+		return
+	}
+}
+
 type twork struct {
-	TMS       string       `json:"tms"`
-	IDs       []int        `json:"ids"`
-	PageSize  int          `json:"page_size"`
-	Keep      bool         `json:"keep_points_and_lines"`
-	IgnoreOut bool         `json:"ignore_outside_grid"`
-	Reverse   bool         `json:"reverse_winding_order"`
-	Overwrite bool         `json:"overwrite"`
-	Spelling  uint64       `json:"spelling"`    // decides short/long spellings, bool forms and flag order
-	TargetRel string       `json:"target_path"` // relative to the run directory
-	Existing  string       `json:"existing"`    // none | previous | truncated | empty | garbage
-	Source    gpkgh.Source `json:"source"`
-	Decoys    bool         `json:"decoys"`
+	TMS       string `json:"tms"`
+	IDs       []int  `json:"ids"`
+	PageSize  int    `json:"page_size"`
+	Keep      bool   `json:"keep_points_and_lines"`
+	IgnoreOut bool   `json:"ignore_outside_grid"`
+	Reverse   bool   `json:"reverse_winding_order"`
+	Overwrite bool   `json:"overwrite"`
+	Spelling  uint64 `json:"spelling"`    // decides short/long spellings, bool forms and flag order
+	TargetRel string `json:"target_path"` // relative to the run directory
+	Existing  string `json:"existing"`    // none | previous | truncated | empty | garbage
+	// ExistingMask: which ids have a pre-existing target file (bit id%64); an earlier run
+	// may have used another id list
+	ExistingMask uint64       `json:"existing_mask"`
+	Source       gpkgh.Source `json:"source"`
+	Decoys       bool         `json:"decoys"`
+	// ExpectFailure: the configuration is one on which the tool must exit non-zero
+	ExpectFailure bool `json:"expect_failure,omitempty"`
 }
 
 type replayFile struct {
@@ -178,6 +218,17 @@ func genPolygon(r *simrt.RNG, t tms20.TileMatrixSet, g grid, ids []int, outside 
 		cx = g.minX + size*0.2
 	}
 	rings := [][][2]float64{star(r, cx, cy, size/3, size, 3+r.Intn(14), unit)}
+	if outside {
+		// keep clear of the band of one deepest pixel just outside the edge: there the library
+		// does not recognise a vertex as outside (truncating division, another property's
+		// business) and panics instead of skipping the polygon
+		res := pixelOf(t, g, deep)
+		for i, p := range rings[0] {
+			if p[0] < g.minX && p[0] > g.minX-3*res {
+				rings[0][i][0] = g.minX - 3*res
+			}
+		}
+	}
 	if r.Chance(0.25) && size > 12*unit {
 		hole := star(r, cx, cy, size/12, size/5, 3+r.Intn(6), unit)
 		for i, j := 0, len(hole)-1; i < j; i, j = i+1, j-1 {
@@ -356,6 +407,10 @@ func genWork(seed uint64) (twork, simrt.FaultPlan, simrt.MapPolicy, uint64) {
 	default:
 		w.Existing, w.Overwrite = "garbage", true
 	}
+	w.ExistingMask = ^uint64(0)
+	if r.Chance(0.5) {
+		w.ExistingMask = r.Uint64() | r.Uint64() // about three quarters of the ids
+	}
 	w.Decoys = r.Chance(0.5)
 	// source
 	nsrs := 1 + r.Intn(2)
@@ -467,9 +522,9 @@ func targetName(target string, id int) string {
 // reference model
 
 type modelResult struct {
-	tables  map[int][]*gpkgh.ExpTable // per id
-	skip    string                    // the library itself panics on an input: not a C13 matter
-	probes  simh.Counter
+	tables map[int][]*gpkgh.ExpTable // per id
+	skip   string                    // the library itself panics on an input: not a C13 matter
+	probes simh.Counter
 }
 
 func snapParts(w *twork, parts [][][][2]float64) (per map[int][][][][2]float64, panicked string) {
@@ -632,6 +687,9 @@ func prepare(w *twork, seed uint64, dir string) prepared {
 		tp := targetName(p.target, id)
 		rel, _ := filepath.Rel(dir, tp)
 		p.expectedFiles[rel] = true
+		if w.ExistingMask>>(uint(id)%64)&1 == 0 {
+			continue
+		}
 		switch w.Existing {
 		case "previous", "truncated":
 			if err := gpkgh.WriteSource(tp, previousContent(seed+uint64(k))); err != nil {
@@ -740,11 +798,26 @@ var tapeSink func(uint32)
 
 func runOne(t *testing.T, w *twork, fp simrt.FaultPlan, mp simrt.MapPolicy, mapSeed, seed uint64, tape []uint32, replay, trace bool, dir string, mode string, binary string) (rr runResult) {
 	rr.probes = simh.Counter{}
+	if w.ExpectFailure && mode == "binary" {
+		p := prepare(w, seed, dir)
+		defer os.RemoveAll(dir)
+		rr.args = p.args
+		cmd := exec.Command(binary, p.args[1:]...)
+		cmd.Dir = dir
+		outb, err := cmd.CombinedOutput()
+		rr.probes.Inc("binary:outside-grid-without-ignore-flag")
+		if err == nil {
+			rr.violation = &simh.Violation{Class: "binary/no-failure-on-outside-grid", Message: "a polygon lies partly outside the grid and the ignore flag is off, yet the tool exited 0\n" + lastLines(string(outb), 8)}
+		}
+		rr.nontriv = true
+		return rr
+	}
 	m := buildModel(w)
 	if m.skip != "" {
 		rr.skipped = m.skip
 		rr.probes.Inc("skipped:library-panics-on-generated-polygon")
 		rr.probes.Inc("skipped-reason:" + panicKind(m.skip))
+		rr.probes.Inc("skipped-tms:" + w.TMS)
 		return rr
 	}
 	p := prepare(w, seed, dir)
@@ -803,6 +876,19 @@ func runOne(t *testing.T, w *twork, fp simrt.FaultPlan, mp simrt.MapPolicy, mapS
 	pr := rr.probes
 	pr.Merge(m.probes)
 	pr.Inc("existing=" + w.Existing)
+	if w.Existing != "none" {
+		some, all := false, true
+		for _, id := range w.IDs {
+			if w.ExistingMask>>(uint(id)%64)&1 == 1 {
+				some = true
+			} else {
+				all = false
+			}
+		}
+		if some && !all {
+			pr.Inc("pre-existing-target-for-some-ids-only")
+		}
+	}
 	pr.Inc("tms=" + w.TMS)
 	pr.Inc("ids=" + strconv.Itoa(len(w.IDs)))
 	if !sort.IntsAreSorted(w.IDs) {
@@ -890,6 +976,9 @@ func TestVerifToolsim(t *testing.T) {
 			out.Line(map[string]interface{}{"t": "start", "seed": seed})
 			runLog.Reset()
 			w, fp, mp, mapSeed := genWork(seed)
+			if mode == "binary" && seed%3 == 0 {
+				forceOutsideGrid(&w, seed)
+			}
 			engine := "toolsim"
 			if mode != "sim" {
 				engine = "toolsim-" + mode
@@ -901,6 +990,9 @@ func TestVerifToolsim(t *testing.T) {
 			tapeSink = simh.StreamReplay(job, func() interface{} { return mk(runResult{}) })
 			wantSample := len(sum.Samples) < job.Samples && len(w.Source.Tables) <= 2 && rowsOf(&w) >= 2 && rowsOf(&w) <= 6
 			rr := runOne(t, &w, fp, mp, mapSeed, seed, nil, false, job.Mode == "selftest", filepath.Join(job.Scratch, "run"), mode, job.Extra["binary"])
+			if rr.skipped != "" && len(sum.Notes) < 3 {
+				sum.Notes = append(sum.Notes, fmt.Sprintf("seed %d skipped: %s", seed, rr.skipped))
+			}
 			sum.Runs++
 			sum.SeedNext = seed + 1
 			sum.Steps += int64(rr.sim.Steps)
@@ -921,7 +1013,7 @@ func TestVerifToolsim(t *testing.T) {
 					"trace_hash": strconv.FormatUint(simrt.HashString(strings.Join(rr.sim.Trace, "\n")), 16)})
 			}
 			if rr.violation != nil {
-				if known := job.Extra["known"]; known != "" && contains(strings.Split(known, ","), rr.violation.Class) {
+				if job.IsKnown(rr.violation.Class) {
 					sum.Oracles.Inc("known:" + rr.violation.Class)
 					continue
 				}
